@@ -14,6 +14,8 @@ package stateproof
 // participant at position 0, so that proofs revealing only position 0 occur);
 // provenWeight in {total/3, total/2};
 // strengthTarget 8 (thorough: also 32); EVERY subset of signers (2^5).
+// Plus one boundary case: provenWeight 2^40, strengthTarget 256 and the smallest signed weight
+// for which the prover still succeeds (exactly MaxReveals = 640 reveals), all five signing.
 // Oracle A (iff):
 //   signedWeight <= provenWeight  => CreateProof fails (Ready() is "signedWeight >
 //       ProvenWeight"); additionally a cheating prover that was told provenWeight = 1 builds a
@@ -79,6 +81,8 @@ package stateproof
 //   M4 verifier.go: result of the participants-commitment proof ignored
 //        -> part-weight, part-key, part-other
 //   M5 verifier.go: salt-version validation result ignored -> salt-version
+//   S1 (seeded C39-B) verifyWeights refuses `numOfReveals >= MaxReveals`: MISSED before the
+//      MaxReveals boundary case existed, now DETECTED (valid-proof-rejected); also by C38
 
 import (
 	"fmt"
@@ -506,9 +510,46 @@ func TestVerif_C39(t *testing.T) {
 		}
 	}
 
-	// ---- phase 1: every subset of signers
+	// ---- the reveal-count boundary: one real proof that needs as many reveals as the prover
+	// allows (strengthTarget 256, provenWeight 2^40, the smallest signed weight in
+	// (2^40, 2^41] for which numReveals still succeeds: 640 = MaxReveals reveals on the
+	// unchanged code). All five participants sign; it goes through oracle A and B like any
+	// other case (prover succeeded => verifier must accept, also after the wire round trip).
 	var cases []*c39case
-	for si := range setups {
+	{
+		pwX, tX := uint64(1)<<40, uint64(256)
+		lnX, _ := LnIntApproximation(pwX)
+		okAt := func(sw uint64) bool { _, err := numReveals(sw, lnX, tX); return err == nil }
+		lo, hi := pwX+1, 2*pwX
+		if okAt(hi) && !okAt(lo) {
+			for hi-lo > 1 {
+				mid := lo + (hi-lo)/2
+				if okAt(mid) {
+					hi = mid
+				} else {
+					lo = mid
+				}
+			}
+			q := hi / c39N
+			s := setup{weights: []uint64{q, q, q, q, hi - 4*q}, total: hi}
+			for i, w := range s.weights {
+				s.parts = append(s.parts, basics.Participant{PK: signers[i].verifier, Weight: w})
+			}
+			s.tree, err = merklearray.BuildVectorCommitmentTree(basics.ParticipantsArray(s.parts), hf)
+			if err != nil {
+				t.Fatalf("HARNESS: participants tree: %v", err)
+			}
+			setups = append(setups, s)
+			nrX, _ := numReveals(hi, lnX, tX)
+			r.Set("max_reveals_case", map[string]any{"signedWeight": hi, "provenWeight": pwX, "strengthTarget": tX, "numReveals": nrX, "MaxReveals": MaxReveals})
+			cases = append(cases, &c39case{name: "maxreveals/pw=2^40/t256", weights: s.weights, pw: pwX, target: tX, mask: 1<<c39N - 1})
+		} else {
+			r.Note("max-reveals case not constructible: numReveals(2^41, ln 2^40, 256) ok=%v, numReveals(2^40+1, ...) ok=%v", okAt(hi), okAt(lo))
+		}
+	}
+
+	// ---- phase 1: every subset of signers
+	for si := range weightSets {
 		for _, frac := range []uint64{3, 2} {
 			for _, target := range targets {
 				for mask := uint(0); mask < 1<<c39N; mask++ {
@@ -692,7 +733,7 @@ func TestVerif_C39(t *testing.T) {
 	r.Assume("SignedWeight +-1, verifier provenWeight+1 and strengthTarget x2 are judged by verifyWeights on the mutated values (must fail when the weight inequality fails); when it still holds they can only be refused statistically by the Fiat-Shamir coins (SignedWeight is the prover's claim, tested with high probability by design), so that outcome is counted (n:accept|reject/...(excluded)), not judged. SignedWeight = provenWeight, SignedWeight = 0 and provenWeight = signedWeight must always fail")
 	r.Assume("a round inside the same merkle-signature key-lifetime window verifies by design (documented key validity); only rounds of other windows must fail")
 	cov := ve.Coverage{Exhaustive: done1 == int64(len(cases)) && done2 == int64(len(items)),
-		Rule: fmt.Sprintf("5 participants with real merkle-signature (Falcon) keys, weights (1,2,3,4,5), (3,3,3,3,3), (16,1,1,1,1), provenWeight in {total/3, total/2}, strengthTarget %v: every subset of signers (%d cases) through the real Prover and Verifier (accept iff signedWeight > provenWeight; cheating prover with insufficient weight rejected), then every single mutation of every valid proof (%d mutated verifications): message, round, each reveal's position/signature bytes/key/index/key-proof/L/participant weight/key, reveal dropped/duplicated/swapped, SignedWeight +-1, salt version, SigCommit, each digest and the depth of both merkle proofs, each PositionsToReveal entry, the verifier's trusted inputs", targets, len(cases), len(items))}
+		Rule: fmt.Sprintf("5 participants with real merkle-signature (Falcon) keys, weights (1,2,3,4,5), (3,3,3,3,3), (16,1,1,1,1), provenWeight in {total/3, total/2}, strengthTarget %v: every subset of signers, plus one proof needing exactly MaxReveals reveals (%d cases) through the real Prover and Verifier (accept iff signedWeight > provenWeight; cheating prover with insufficient weight rejected), then every single mutation of every valid proof (%d mutated verifications): message, round, each reveal's position/signature bytes/key/index/key-proof/L/participant weight/key, reveal dropped/duplicated/swapped, SignedWeight +-1, salt version, SigCommit, each digest and the depth of both merkle proofs, each PositionsToReveal entry, the verifier's trusted inputs", targets, len(cases), len(items))}
 	if r.Finish(cov) > 0 {
 		t.Fatal("violations")
 	}
